@@ -132,8 +132,6 @@ class Machine:
                 fn()
                 if inst.op_code not in (OpCode.END, OpCode.JSR, OpCode.JUMP):
                     self._reg.pc += 1
-            self._clock.stop()
-            self._vm_io.flush()
             logging.debug(
                 'Stopped, _keep_running = {}, _pc = {}, program_len = {}'
                 .format(
@@ -141,6 +139,13 @@ class Machine:
         except Exception as ex:
             logging.error("Machine stopped due to {} at instruction {}"
                           .format(ex, self._reg.pc))
+            # Values collected for a print that was never finished.
+            self._vm_io.reset()
+        finally:
+            # Also after an error: the clock thread ends, and the output sink
+            # starts the next script on a line of its own.
+            self._clock.stop()
+            self._vm_io.flush()
 
     def stop(self) -> None:
         self._keep_running = False
